@@ -4,7 +4,9 @@ usage: package_seed.py <prop> <n> <worktree> <breaks> <needs> <caught_by> <confi
 import sys, os, shutil, json, glob, re
 prop, n, wt, breaks, needs, caught = sys.argv[1:7]
 logs = sys.argv[7:]
-dst = f"/verif/seeded/{prop}-{n}"
+# "<dst n>:<src n>" packages patch<src n>.diff of the worktree as <prop>-<dst n>
+dn, n = n.split(":") if ":" in n else (n, n)
+dst = f"/verif/seeded/{prop}-{dn}"
 os.makedirs(dst, exist_ok=True)
 shutil.copy(f"{wt}/patch{n}.diff", f"{dst}/patch.diff")
 demo = f"{wt}/tests/seeded_demo{n}.rs"
